@@ -235,7 +235,7 @@ func (fr *Frame) havocCallee(callee *ssa.Function, argVals ...ssa.Value) {
 	}
 }
 
-func (fr *Frame) callStatic(ins ssa.Instruction, callee *ssa.Function, args []*Val, bindings []*Val, resSort *Sort) *Val {
+func (fr *Frame) callStatic0(ins ssa.Instruction, callee *ssa.Function, args []*Val, bindings []*Val, resSort *Sort) *Val {
 	ex := fr.ex
 	for k, a := range args {
 		if a != nil && a.Borrow != nil {
@@ -775,4 +775,35 @@ func (ex *Exec) nnAny(term string, t types.Type) string {
 		return "(and (not (= " + term + " anyNil)) (> (refOf " + term + ") 0))"
 	}
 	return "(not (= " + term + " anyNil))"
+}
+
+// callStatic wraps callStatic0 with the pool-buffer protocol: a `releases b` callee invalidates the buffer passed
+// as b (using it afterwards is a borrow-valid failure; releasing it twice as well), a `pool-result` callee hands out
+// a buffer that stays valid until it is released.
+func (fr *Frame) callStatic(ins ssa.Instruction, callee *ssa.Function, args []*Val, bindings []*Val, resSort *Sort) *Val {
+	ex := fr.ex
+	var c *Contract
+	if callee.Pkg == ex.pkg && ex.cs != nil {
+		c = ex.cs.Funcs[ex.fnKey(callee)]
+	}
+	if c != nil && c.Releases != "" {
+		for k, p := range callee.Params {
+			if p.Name() == c.Releases && k < len(args) && args[k].Borrow != nil && args[k].Borrow.Pool {
+				fr.useBytes(ins, args[k], "released ("+callee.Name()+")")
+				fr.bumpEpoch(args[k].Borrow.Reader)
+				na := *args[k]
+				na.Borrow = nil // the callee owns it from here on
+				args = append(append([]*Val{}, args[:k]...), append([]*Val{&na}, args[k+1:]...)...)
+			}
+		}
+	}
+	r := fr.callStatic0(ins, callee, args, bindings, resSort)
+	if c != nil && c.PoolResult && r != nil && r.S != nil && r.S.K == KString {
+		id := ex.alloc(fr.cur, "poolbuf")
+		fr.setGhostAt("RE", id, "0")
+		nr := *r
+		nr.Borrow = &Borrow{Active: "true", Reader: id, Epoch: "0", Pool: true}
+		return &nr
+	}
+	return r
 }
